@@ -393,6 +393,16 @@ class World:
         return r
 
     def _wake(self, inst, fds):
+        # a program that returns to select() again and again at the same instant without taking anything off its
+        # readable descriptors spins: in real time it burns a CPU and does nothing else (livelock)
+        key = (inst.name, self.now, tuple(fds))
+        if fds and getattr(self, "_spin_key", None) == key:
+            self._spin_n += 1
+            if self._spin_n > 3000:
+                raise KernelHang("livelock: %s woke %d times at t=%d us with fds %s readable and never read them"
+                                 % (inst.name, self._spin_n, self.now, list(fds)))
+        else:
+            self._spin_key, self._spin_n = key, 0
         self.k.cmd("time %d" % self.now)
         arg = ",".join(str(f) for f in fds) if fds else "-"
         self.ev(ev="Wake", inst=inst.name, fds=list(fds), timeout=not fds)
@@ -450,7 +460,7 @@ class World:
             if not self.step(limit=t):
                 return pred(self) if pred else True
             n += 1
-        raise RuntimeError("max_steps exceeded")
+        raise KernelHang("no end: %d scheduling steps without reaching the target time" % max_steps)
 
     def call_at(self, t, fn):
         self.push(t, "call", fn)
